@@ -77,6 +77,50 @@ def reads_writes(stmts):
     return reads, writes
 
 
+MUTATORS = {'append', 'extend', 'insert', 'update', 'pop', 'popitem', 'remove', 'clear', 'add', 'discard', 'setdefault', 'sort',
+            'reverse', '__setitem__', '__delitem__', '__iadd__'}
+
+
+def inplace_updates(stmts, own_tables):
+    """syntactic frame of a block: in-place updates (augmented assignment, subscript store / delete, mutator method call) of
+    self.<attr> for an attribute that is not one of the block's own tables, or of a local name bound to such an attribute
+    (an alias: x = self.f).  The values of the public fields are shared between a state and the states derived from it, so
+    such an update alters the receiver of sub_context()."""
+    alias = {}
+    out = []
+
+    def root(n):
+        while isinstance(n, (ast.Subscript, ast.Attribute)) and not (
+                isinstance(n, ast.Attribute) and isinstance(n.value, ast.Name) and n.value.id == 'self'):
+            n = n.value
+        if isinstance(n, ast.Attribute) and isinstance(n.value, ast.Name) and n.value.id == 'self':
+            return None if n.attr in own_tables else 'self.' + n.attr
+        if isinstance(n, ast.Name) and n.id in alias:
+            return '%s (= %s)' % (n.id, alias[n.id])
+        return None
+    for st in stmts:
+        for n in ast.walk(st):
+            if isinstance(n, ast.Assign) and len(n.targets) == 1 and isinstance(n.targets[0], ast.Name):
+                v = n.value
+                if isinstance(v, ast.Attribute) and isinstance(v.value, ast.Name) and v.value.id == 'self' and v.attr not in own_tables:
+                    alias[n.targets[0].id] = 'self.' + v.attr
+                elif isinstance(v, ast.Name) and v.id in alias:
+                    alias[n.targets[0].id] = alias[v.id]
+                else:
+                    alias.pop(n.targets[0].id, None)
+            if isinstance(n, ast.AugAssign):
+                r = root(n.target)
+                if r and not (isinstance(n.target, ast.Attribute) and False):
+                    out.append('%s: augmented assignment to %s' % (ast.unparse(n)[:60], r))
+            if isinstance(n, (ast.Assign, ast.Delete)):
+                for t in (n.targets if isinstance(n, (ast.Assign, ast.Delete)) else []):
+                    if isinstance(t, ast.Subscript) and root(t.value):
+                        out.append('%s: item store into %s' % (ast.unparse(n)[:60], root(t.value)))
+            if isinstance(n, ast.Call) and isinstance(n.func, ast.Attribute) and n.func.attr in MUTATORS and root(n.func.value):
+                out.append('%s: %s() on %s' % (ast.unparse(n)[:60], n.func.attr, root(n.func.value)))
+    return out
+
+
 def register(reg):
     import contracts
     units = {}
@@ -122,6 +166,10 @@ def register(reg):
             ctx.prove('finalize-guards:%s inherits exactly the tables it recomputes' % name,
                       sorted(inh) == sorted(writes), 'lemma',
                       src='inherited %r, recomputed %r' % (sorted(inh), sorted(writes)))
+            upd = inplace_updates(rest, set(writes))
+            ctx.prove('finalize-guards:%s only assigns its own tables (no in-place update of a field, or of a local alias of one, '
+                      'which the state shares with the state it was derived from)' % name, not upd, 'frame',
+                      src='in-place updates found: %s' % upd)
 
             def val_of(attr, table, fields):
                 if attr in fields:
@@ -264,7 +312,12 @@ def register(reg):
         fields = {f: absfield(it, 'self.' + f) for f in FIELDS}
         for t in cached_tables(it):
             fields[t] = absfield(it, 'self.' + t)
-        fields['_parent_parsing_state_info'] = (None, PyDict())
+        if ctx.choose(2, 'the receiver is itself a derived state') == 0:
+            fields['_parent_parsing_state_info'] = (None, PyDict())
+        else:
+            gp = {f: absfield(it, 'grandparent.' + f) for f in FIELDS}
+            gp['_parent_parsing_state_info'] = (None, PyDict())
+            fields['_parent_parsing_state_info'] = (new_obj(it, PS, gp, tag='grandparent'), PyDict())
         self = new_obj(it, PS, fields, tag='self')
         keys = CONFIGS[ctx.choose(len(CONFIGS), 'keys given to sub_context')]
         kw = PyDict({k: absfield(it, 'new.' + k) for k in keys})
